@@ -531,7 +531,11 @@ Section Refine.
         1-3: cbn [result events]; rewrite run_one, step_scalar by (auto; reflexivity);
              apply scalar_rejected; auto.
         + (* array *)
-          set (pk := p && type_numeric (fd_type fd)).
+          cbn zeta. rewrite <- andb_assoc.
+          destruct (type_numeric (fd_type fd) && negb p) eqn:Hg; cbn [andb]; [exact I|].
+          assert (Hflag : type_numeric (fd_type fd) = p && type_numeric (fd_type fd))
+            by (destruct (type_numeric (fd_type fd)), p; cbn in *; congruence).
+          set (pk := p && type_numeric (fd_type fd)) in *. rewrite Hflag.
           assert (Hpo : packed_of (GField fd) = pk) by (unfold packed_of; cbn [g_ispacked]; rewrite Hl; reflexivity).
           assert (Hpk : packed_of (GField fd) = true -> type_numeric (fd_type fd) = true)
             by (rewrite Hpo; unfold pk; intro H; apply andb_true_iff in H; tauto).
@@ -802,7 +806,8 @@ Section StrictLax.
     Proof.
       unfold den_field. destruct (fd_label fd) as [|p|kk].
       - apply rr_bind; [apply single_rr|]. intro pv. apply rr_refl.
-      - destruct v; try apply rr_refl. apply rr_bind; [apply elems_rr|]. intro vs. cbn [andb].
+      - destruct v; try apply rr_refl. cbn zeta. cbn [andb]. apply rr_if.
+        apply rr_bind; [apply elems_rr|]. intro vs. cbn [andb].
         destruct vs; [apply rr_if, rr_refl|]. cbn [andb]. apply rr_if, rr_refl.
       - destruct v; try apply rr_refl. apply rr_bind; [apply entries_rr|]. intro kvs. apply rr_refl.
     Qed.
